@@ -344,6 +344,16 @@ class Ghost(object):
         self.cache = {}
         self.misuse = []
         self.uses = 0
+        self.contrib = []      # (kind, matrix slot inside the integrator's accumulator, element index, term added) for every abstract contraction into vmat / v1
+
+
+def _slot_of(vm):
+    """Which (nao, nao) matrix of the integrator's accumulator a view handed to a contraction routine is: (id of the root buffer, index among its matrices)."""
+    root = vm
+    while getattr(root, "base", None) is not None:
+        root = root.base
+    off = vm.__array_interface__["data"][0] - root.__array_interface__["data"][0]
+    return id(root), off // (vm.itemsize * max(vm.size, 1))
 
 
 def dm_owners(arr):
@@ -424,7 +434,9 @@ def abstract_ni(it, mod, nblocks=2, has_sdmx=True, nldf=False):
         args = [tm.lift(v) for v in np.asarray(ao, dtype=object).reshape(-1)] + [tm.lift(v) for v in np.asarray(wv, dtype=object).reshape(-1)]
         for t, vm in enumerate(vmats):
             for idx in itertools.product(*[range(k) for k in vm.shape]):
-                vm[idx] = tm.lift(vm[idx]) + ufn("CWV%d_%s" % (t, "_".join(map(str, idx))), args)
+                term = ufn("CWV%d_%s" % (t, "_".join(map(str, idx))), args)
+                ghost.contrib.append(("cwv%d" % t, _slot_of(vm), idx, term))
+                vm[idx] = tm.lift(vm[idx]) + term
         return vmats, buffers
     ni.fields["contract_wv"] = Builtin("abs.contract_wv", contract_wv)
     # SDMX generator with ghost cache
@@ -454,7 +466,9 @@ def abstract_ni(it, mod, nblocks=2, has_sdmx=True, nldf=False):
             ghost.misuse.append(("sdmxgen.get_vxc_", sorted(own), sorted(have or [])))
         args = [tm.lift(u) for u in np.asarray(v, dtype=object).reshape(-1)]
         for idx in itertools.product(*[range(k) for k in vmat.shape]):
-            vmat[idx] = tm.lift(vmat[idx]) + ufn("SDMXV_%s" % "_".join(map(str, idx)), args)
+            term = ufn("SDMXV_%s" % "_".join(map(str, idx)), args)
+            ghost.contrib.append(("sdmx", _slot_of(vmat[idx[:-2]]) if len(idx) > 2 else _slot_of(vmat), tuple(idx[-2:]), term))
+            vmat[idx] = tm.lift(vmat[idx]) + term
     sd.fields["get_vxc_"] = Builtin("abs.sdmx.get_vxc_", sd_vxc)
     sd.fields["_cached_ao_data"] = None
     ni.fields["sdmxgen"] = sd
@@ -821,6 +835,111 @@ def unit_c_defines_output(rel, fn, out):
     return run
 
 
+YLM_PROBE_INPUTS = [
+    # (natm, ngrids, per-atom lmax): ylm_atom_loc is the cumulative sum of (lmax+1)^2 (sdmx.py:_get_ylm_atom_loc); ngrids around the 56-point block
+    (1, 3, (0,)), (1, 3, (1,)), (2, 5, (1, 0)), (2, 57, (2, 1)), (3, 56, (0, 3, 1)), (1, 113, (2,)),
+]
+
+
+def replay_ylm_grad_defined(wit):
+    """Native: fill the three gradient components with NaN, run SDMXylm_grad on the witness sizes, report whether the element is still NaN."""
+    import ctypes
+    from pyvc import native
+    w = wit or {}
+    natm, ng = int(w.get("natm", 1)), int(w.get("ngrids", 3))
+    loc = [int(w.get("ylm_atom_loc[%d]" % i, 0)) for i in range(natm + 1)]
+    if natm < 1 or ng < 1 or ng > 10 ** 5 or any(b < a for a, b in zip(loc, loc[1:])) or loc[-1] > 10 ** 4:
+        return {"reproduced": None, "note": "witness sizes outside the replayable range"}
+    lib = ctypes.CDLL(native.build_libs() + "/libmcider.so")
+    nlm = loc[-1]
+    L = int(max(b - a for a, b in zip(loc, loc[1:])) ** 0.5 + 1e-6) - 1
+    buf = np.full((4, nlm, ng), np.nan)
+    buf[0] = np.random.RandomState(5).randn(nlm, ng)
+    gaunt_nlm = max(L, 1) ** 2 + 2 * max(L, 1) + 4
+    gaunt = np.ascontiguousarray(np.random.RandomState(6).randn(5, gaunt_nlm))
+    aloc = np.asarray(loc, dtype=np.int32)
+    lib.SDMXylm_grad(ctypes.c_int(ng), buf.ctypes.data_as(ctypes.c_void_p), gaunt.ctypes.data_as(ctypes.c_void_p), ctypes.c_int(gaunt_nlm),
+                     aloc.ctypes.data_as(ctypes.c_void_p), ctypes.c_int(natm))
+    flat = buf.ravel()
+    t = int(w.get("target_element", -1))
+    stale = [int(i) for i in np.nonzero(np.isnan(flat[nlm * ng:]))[0][:10] + nlm * ng]
+    return {"reproduced": bool(0 <= t < flat.size and np.isnan(flat[t])), "natm": natm, "ngrids": ng, "ylm_atom_loc": loc, "target_element": t,
+            "gradient_elements_still_holding_the_previous_contents": stale}
+
+
+def unit_ylm_grad_defined(ctx):
+    """EXXSphGenerator._get_ylm hands SDMXylm_grad a work array that comes from np.empty the first time and is re-used afterwards (sdmx.py: self._ylm_buf);
+    the l1 contractions read every gradient row of every atom.  So the routine must DEFINE every gradient element  (v, ylm_atom_loc[ia] + lm, g),
+    v = 1..3, ia < natm, lm < nlm(ia), g < ngrids  — by an overwriting store, since an accumulating one keeps what the previous call left behind."""
+    from cvc.csym import CUnsupported
+    from contracts import c10, outcover
+    rel, fn = "mod_cider/fast_sdmx.c", "SDMXylm_grad"
+    fq = ["lib/%s:%s" % (rel, fn)]
+    try:
+        sy, args = c10.summarise(rel, fn)
+    except CUnsupported as e:
+        ctx.undecided("%s summarised" % fn, str(e)[:200], fq)
+        return
+    sets = [e for e in sy.events if e.kind == "w" and e.arr.name == "ylm_vlg" and e.op == "="]
+    ctx.holds("%s has overwriting stores into ylm_vlg" % fn, len(sets) > 0, "", fq)
+    ng, natm = args["ngrids"], args["natm"]
+    loc = lambda i: tm.mk_fi("ylm_atom_loc", tm.lift(i))
+    nblk = tm.mk_fn("idiv", ng + 55, tm.lift(56))
+    hyps = list(c10.nonneg_hyps(args)) + [tm.mk_le(tm.ONE, ng), tm.mk_le(tm.ONE, natm)]
+    ctx.assume("requires ylm_atom_loc non-decreasing from 0 (cumulative (lmax+1)^2, sdmx.py:_get_ylm_atom_loc); ngrids >= 1, natm >= 1")
+    # (1) symbolic, all sizes: the element set written block by block.  Element (v, ia, lm, ip + g) with (ia, ip) the routine's own (atom, 56-point block)
+    #     decomposition of the worksharing index; that the decomposition reaches every (atom, grid point) is the partition obligation of C10 for this routine.
+    blk, lm, g = tm.var("t_blk", "I"), tm.var("t_lm", "I"), tm.var("t_g", "I")
+    ia, ib = tm.mk_fn("idiv", blk, nblk), tm.mk_fn("imod", blk, nblk)
+    bg = tm.mk_ite(tm.mk_lt(ng - 56 * ib, tm.lift(56)), ng - 56 * ib, tm.lift(56))
+    targets = [(blk, tm.ZERO, natm * nblk), (lm, tm.ZERO, loc(ia + 1) - loc(ia)), (g, tm.ZERO, bg)]
+    sym_ok = True
+    for v in (1, 2, 3):
+        tgt = v * loc(natm) * ng + (loc(ia) + lm) * ng + 56 * ib + g
+        st, be, detail, wit = outcover.coverage(sets, targets, tgt, hyps, ctx.timeout)
+        if st == "discharged":
+            ctx._rec("obligation", "%s: every element of gradient component %d of every (atom, block) is overwritten before it is accumulated into or left (all sizes)" % (fn, v),
+                     vc.Verdict("discharged", be, detail), fq)
+        else:
+            sym_ok = False
+    # (2) exact enumeration on concrete inputs (bounded): decides what the symbolic scheme cannot express (loops over the degree l, integer square roots)
+    inputs = []
+    for (n_at, n_g, lmaxs) in YLM_PROBE_INPUTS:
+        inp = {"natm": n_at, "ngrids": n_g, "gaunt_nlm": 64}
+        acc = 0
+        for i, L in enumerate(lmaxs):
+            inp["ylm_atom_loc[%d]" % i] = acc
+            acc += (L + 1) ** 2
+        inp["ylm_atom_loc[%d]" % n_at] = acc
+        for q in [q for e in sets for q in e.qvars]:
+            for u in tm.subterms(tm.lift(q[2])).values():
+                if outcover._is_team_size(u):
+                    inp[u.args[0]] = 1
+        inputs.append(inp)
+    ia_, lm_, g_ = tm.var("t_ia", "I"), tm.var("t_lm", "I"), tm.var("t_gg", "I")
+    tg2 = [(ia_, tm.ZERO, natm), (lm_, tm.ZERO, loc(ia_ + 1) - loc(ia_)), (g_, tm.ZERO, ng)]
+    worst = ("bounded", "", None)
+    n_tot = 0
+    for v in (1, 2, 3):
+        tgt = v * loc(natm) * ng + (loc(ia_) + lm_) * ng + g_
+        st, detail, wit = outcover.probe(sets, tg2, tgt, inputs, defs=getattr(sy, "isqrt_defs", {}))
+        if st != "bounded":
+            worst = (st, "component %d: %s" % (v, detail), wit)
+            break
+        worst = ("bounded", detail, None)
+    bound = "natm, ngrids, lmax per atom in %s" % (YLM_PROBE_INPUTS,)
+    name = "%s: every gradient element (v, atom row, grid point) is overwritten by the routine itself (exact enumeration of the store instances)" % fn
+    if worst[0] == "refuted":
+        ctx._rec("obligation", name, vc.Verdict("refuted", "enumeration", worst[1], witness=worst[2]), fq, replay_ylm_grad_defined)
+    elif worst[0] == "undecided":
+        ctx.undecided(name, worst[1], fq)
+    elif sym_ok:
+        ctx._rec("bounded", name, vc.Verdict("discharged", "bounded[%s]" % bound, worst[1]), fq)
+    else:
+        ctx._rec("bounded", name, vc.Verdict("discharged", "bounded[%s]" % bound, worst[1] + "; the all-sizes obligation was not decided"), fq)
+        ctx.assume("bounded only: %s output definedness is decided by enumeration on the probe inputs; the symbolic scheme did not decide it" % fn)
+
+
 def units():
     u = [("frames/settings", unit_frames_settings), ("frames/maps", unit_frames_maps), ("frames/sdmx-plan", unit_frames_sdmx_plan)]
     for version, level in (("ij", "MGGA"), ("i", "GGA"), ("j", "MGGA"), ("k", "MGGA")):
@@ -831,6 +950,11 @@ def units():
     for rel, fn, out in (("mod_cider/fast_sdmx.c", "contract_shl_to_alpha_l1", "p"), ("mod_cider/fast_sdmx.c", "SDMXcontract_ao_to_bas", "vbas"),
                          ("mod_cider/fast_sdmx.c", "SDMXcontract_ao_to_bas_grid", "vbas")):
         u.append(("c-defines-output/" + fn, unit_c_defines_output(rel, fn, out)))
+    u.append(("c-defines-output/SDMXylm_grad", unit_ylm_grad_defined))
+    # EXXSphGenerator: a stacked call equals the separate calls, slot by slot, on a generator that has been used before (contract shared with C01)
+    from contracts import c01
+    for n0, n1 in ((2, 0), (1, 1)):
+        u.append(("sdmx-generator-batch/n0_%d_n1_%d" % (n0, n1), c01.unit_sdmx_generator(n0, n1, batch=True)))
     # history of one integrator object: the molecule, the grids object or the spin count changes between calls (contract shared with C06 / C07)
     from contracts import c06
     for cn in ("NLDFNumInt", "NLDFNLOFNumInt", "NLOFNumInt", "CiderNumInt"):
@@ -850,7 +974,7 @@ EXPLANATION = (
     "state.  Chunk coverage of the kernel evaluator is a bounded stand-in (N around the chunk size).")
 TRUSTED = [
     "A1 reals; A3/A4 numpy/Python model (views / copies / in-place semantics are numpy's own object-array semantics)",
-    "integrator callees (block evaluation, eval_xc_cider, contract_wv, SDMX / NLDF generators) are replaced by uninterpreted contracts; their own history behaviour is in units plan/* (NLDF plan) — EXXSphGenerator / LCAONLDFGenerator internals are not under contract",
+    "integrator callees (block evaluation, eval_xc_cider, contract_wv, SDMX / NLDF generators) are replaced by uninterpreted contracts; their own history behaviour is in units plan/* (NLDF plan) — EXXSphGenerator's batch behaviour is under contract around linear contracts of its C contractions (sdmx-generator-batch/*); LCAONLDFGenerator internals: generator-cache/*, generator-history/*",
     "bounded: evaluator chunking checked for N in {1999, 2000, 2001, 4001}",
     "nr_rks_nldf / nr_uks_nldf batch contracts: see known findings / not covered (shared NLDF cache per spin across the batch)",
 ]
